@@ -139,6 +139,11 @@ def check_copy(ctx, path_in, path_out, task, strip_logs=False, strip_basins=Fals
                 diffs += d
                 for e in extra:
                     diffs.append({"where": f"/{grp}/{e}", "extra_in_output": True})
+        # ------------------------------------------- summary attributes of scalar features
+        # the output's min/max/mean attributes are what dclab reports for ds[feat].min() etc.:
+        # they must describe the copied data (which equal the input's data)
+        if eo:
+            check_summaries(ctx, eo, task, witness)
     findings = [classify_copy_diff(d) for d in diffs]
     finding = findings[0] if findings and all(f == findings[0] and f for f in findings) else None
     ctx.check(f"c08.{task}.content", not diffs,
@@ -147,6 +152,47 @@ def check_copy(ctx, path_in, path_out, task, strip_logs=False, strip_basins=Fals
               message=f"{task}: output differs from input beyond the documented differences: "
                       f"{diffs[:2]}")
     return diffs
+
+
+def check_summaries(ctx, events, task, witness=None):
+    """min / max / mean attributes of one-dimensional datasets in an events group against the
+    definition (nanmin / nanmax / nanmean of the stored data)."""
+    import warnings
+    import h5py
+    for f in events:
+        obj = events[f]
+        if not isinstance(obj, h5py.Dataset) or obj.ndim != 1 or obj.shape[0] == 0 \
+                or obj.dtype.kind not in "fiu":
+            continue
+        have = [u for u in ("min", "max", "mean") if u in obj.attrs]
+        if not have:
+            continue
+        vals = obj[:]
+        with np.errstate(all="ignore"), warnings.catch_warnings():
+            warnings.simplefilter("ignore")
+            fin = vals[~np.isnan(vals)] if vals.dtype.kind == "f" else vals
+            overflow = bool(fin.size) and not np.isfinite(
+                np.sum(np.abs(fin.astype(np.float64))))
+            for u in have:
+                got = float(obj.attrs[u])
+                exp = float({"min": np.nanmin, "max": np.nanmax, "mean": np.nanmean}[u](vals))
+                if np.isnan(got) or np.isnan(exp):
+                    ok = bool(np.isnan(got) and np.isnan(exp))
+                elif u == "mean":
+                    if overflow:
+                        ctx.count("skipped_mean_overflow_regime")
+                        continue
+                    ok = abs(got - exp) <= 1e-9 * max(abs(got), abs(exp)) + 1e-300
+                else:
+                    ok = got == exp
+                    if not ok and vals.dtype.kind == "f" and vals.dtype.itemsize < 8:
+                        ok = bool(vals.dtype.type(got) == vals.dtype.type(exp))
+                ctx.check(f"c08.{task}.summary_attrs", ok,
+                          lambda: dict(witness or {}, task=task, feature=f, stat=u,
+                                       attribute=repr(got), of_the_data=repr(exp),
+                                       n=int(vals.size), chunks=repr(obj.chunks)),
+                          message=f"{task}: attribute {u} of /events/{f} is {got!r}, the copied "
+                                  f"data have nan{u} = {exp!r}")
 
 
 def classify_copy_diff(d):
@@ -371,6 +417,18 @@ def check_split(ctx, path_in, parts, split_events, skip_initial, skip_final, wit
                 for name in ds.logs.keys():
                     if f"src_{name}" not in lg:
                         diffs.append({"part": k, "log_missing": name})
+                    else:
+                        got = [x.decode("utf-8", "replace") if isinstance(x, bytes) else x
+                               for x in lg[f"src_{name}"][:]]
+                        if got != list(ds.logs[name]):
+                            bad = [i for i, (a, b) in enumerate(zip(got, ds.logs[name]))
+                                   if a != b][:1]
+                            diffs.append({"part": k, "log_differs": name,
+                                          "lines": [len(got), len(ds.logs[name])],
+                                          "first_differing_line": bad,
+                                          "got": got[bad[0]][-40:] if bad else None,
+                                          "expected": ds.logs[name][bad[0]][-40:] if bad
+                                          else None})
     ctx.check("c09.split.partition", not diffs,
               lambda: dict(witness or {}, diffs=diffs[:6], n_diffs=len(diffs)),
               message=f"split: parts do not partition the input: {diffs[:2]}")
@@ -457,7 +515,13 @@ def check_join(ctx, paths_in, path_out, witness=None):
                         got = [x.decode("utf-8", "replace") if isinstance(x, bytes) else x
                                for x in lg[oname][:]]
                         if got != list(d.logs[name]):
-                            diffs.append({"log_differs": oname})
+                            bad = [i for i, (a, b) in enumerate(zip(got, d.logs[name]))
+                                   if a != b][:1]
+                            diffs.append({"log_differs": oname,
+                                          "lines": [len(got), len(d.logs[name])],
+                                          "got": got[bad[0]][-40:] if bad else None,
+                                          "expected": d.logs[name][bad[0]][-40:] if bad
+                                          else None})
     finally:
         for d in dss:
             d.close()
